@@ -24,7 +24,7 @@ from . import c09
 
 PID = 'C01'
 RULE = ('cases = random systems of rank 1-3 (atomic / polymer / mixed; per pair any of PY, HNC, MSA, MS with/without hard-core flag and HardSphere, HCLJ, '
-        'Exponential, LennardJones (cut/shift/none), WCA; per type SingleSite, Gaussian, FJC, GaussianRing; tabulated cross omegas; domain length 64-256 (512 thorough), dr 0.05-0.25; '
+        'Exponential, LennardJones (cut/shift/none), WCA; per type SingleSite, Gaussian, FJC, GaussianRing; tabulated cross omegas; domain length 64-256 (512 thorough), dr 0.05-0.25 or the Python integer 1 (integer real-space grid); '
         'packing fraction 1e-3..0.4; kT 0.6-5) solved with krylov(armijo|wolfe), df-sane, anderson, broyden1 (hybr for small grids) from guesses zero / continuation / '
         'perturbed solution / half solution; the Domain is reached through its constructor (dr or dk) or through setter histories, kT through the constructor or by assignment, and 30 % of the objects are solved only after hostile edits of the System they were created from; only converged solves are judged; every fourth case instead compares the real cost function with an independent re-implementation (refmodel.cost_ref) on random symmetric trial vectors; non-trivial = converged solve with >= 3 cost evaluations; distinct = distinct (spec, method, guess) digests')
 ASSUMPTIONS = ['contact points (|r - sigma| < 1e-6) are judged by C10 and masked here',
@@ -67,7 +67,7 @@ def cases(ctx):
             continue
         yield {'seed': int(rng.integers(0, 2 ** 31)), 'guess': str(rng.choice(['zero', 'zero', 'continuation', 'perturbed', 'half'])),
                'first': int(rng.integers(0, len(METHODS))), 'lengths': lengths, 'cross': bool(rng.random() < 0.3), 'hybr': bool(rng.random() < 0.08),
-               'via': str(rng.choice(G.VIAS)), 'kT_via': str(rng.choice(['ctor', 'ctor', 'assign'])), 'deferred': bool(rng.random() < 0.3)}
+               'via': str(rng.choice(G.VIAS)), 'kT_via': str(rng.choice(['ctor', 'ctor', 'assign'])), 'deferred': bool(rng.random() < 0.3), 'intgrid': bool(rng.random() < 0.12)}
 
 
 def oracle(ctx, sp, p, res, label):
@@ -162,6 +162,8 @@ def run_cost_ref(ctx, case):
     objects pins the whole pipeline."""
     rng = np.random.default_rng(case['seed'])
     sp = G.gen_spec(rng, lengths=[64, 100, 128])
+    if rng.random() < 0.15:
+        sp = G.integer_grid(sp)
     if len(sp['types']) > 1 and rng.random() < 0.4:
         kgrid = R.grids(sp['L'], sp['dr'])[1]
         for (i, j), (a, b) in G.pairs(sp['types'], diagonal=False):
@@ -173,7 +175,7 @@ def run_cost_ref(ctx, case):
         cuts = [x for x in R.special_points(ps, sig)[1:]]
         if any(np.any(np.abs(r - x) < R.CONTACT_TOL) for x in cuts):
             raise core.Skip('a cut-off coincides with a grid point (side decided by last-digit noise of the grid)')
-    sp['via'], sp['kT_via'] = case['via'], case['kT_via']
+    sp['via'], sp['kT_via'] = (case['via'] if not isinstance(sp['dr'], int) else 'dr'), case['kT_via']
     with np.errstate(all='ignore'):
         p = G.build(sp).createPRISM()
     n = sp['L'] * len(sp['types']) ** 2
@@ -221,12 +223,14 @@ def run_case(ctx, case):
         return run_cost_ref(ctx, case)
     rng = np.random.default_rng(case['seed'])
     sp = G.gen_spec(rng, lengths=[64] if case['hybr'] else case['lengths'])
+    if case.get('intgrid'):
+        sp = G.integer_grid(sp)
     if case['cross'] and len(sp['types']) > 1:
         kgrid = R.grids(sp['L'], sp['dr'])[1]
         for (i, j), (a, b) in G.pairs(sp['types'], diagonal=False):
             sp['om'][G.pk(a, b)] = {'t': 'ARR', 'w': (float(rng.uniform(0.1, 0.8)) * np.exp(-kgrid * float(rng.uniform(0.3, 1.0)))).tolist()}
     n = len(sp['types'])
-    sp['via'] = case.get('via', 'dr')
+    sp['via'] = case.get('via', 'dr') if not case.get('intgrid') else 'dr'
     sp['kT_via'] = case.get('kT_via', 'ctor')
     s = G.build(sp)                      # the user-level spec `sp` is complete before the real objects exist
     with np.errstate(all='ignore'):
@@ -286,6 +290,8 @@ def run_case(ctx, case):
     ctx.count('domain_via', sp['via'])
     ctx.count('kT_via', sp['kT_via'])
     ctx.count('deferred_solve', bool(case.get('deferred')))
+    ctx.count('integer_grid', isinstance(sp['dr'], int))
+    ctx.count('integer_kT', isinstance(sp['kT'], int))
     for v in sp['clo'].values():
         ctx.count('closure', v['t'] + ('hc' if v.get('hc') else ''))
     for v in sp['pot'].values():
